@@ -232,9 +232,9 @@ def spaces(tier, seed):
     BW = 64
     blk = None if thorough else (BW, seed % BW)
     sp.append(Space(
-        "pedal-wide", product_space(n012, control_streams(3, PT8, K5), block=blk), True,
+        "pedal-wide", product_space(n012, control_streams(3, PT8, K4), block=blk), True,
         "0-2 notes on grid 0..3; <=3 control events at increasing times from {0,.5,...,3.5}, kinds cc64 in "
-        "{0,64,65,127} and cc67=127" + ("" if blk is None else "; quick: diagonal block %d of %d of the product" % (blk[1], BW))))
+        "{0,64,127} and cc67=127" + ("" if blk is None else "; quick: diagonal block %d of %d of the product" % (blk[1], BW))))
     if thorough:
         sp.append(Space(
             "three-notes-grid4", product_space(note_lists(3, G4), control_streams(2, PT6, [[64, 127], [64, 0]]),
